@@ -398,7 +398,7 @@ Definition byte_string (s : string) (i : nat) : string :=
 (* string[i] yields the UTF-8 encoding of the code point with the byte's value *)
 Definition index_string (s : string) (i : nat) : tri string :=
   match String.get i s with
-  | Some c => if (N_of_ascii c <? 128)%N then TOk (String c EmptyString) else TMiss "non-ASCII byte index"
+  | Some c => TOk (String c EmptyString)   (* the byte at i, whatever its value: s[i] = s[i:i+1] *)
   | None => TErr
   end.
 
